@@ -18,7 +18,7 @@ LEVEL_TEXT = ('seeded exploration of encode histories through the public write_s
               'first: 0.0/-0.0, 1/1.0/True, equal instants in other zones, str/enum) and flooded cache states; stateless decode')
 LEVEL_NOTE = ('trusted: sim/rp66.py value decoders (golden vectors in selftest oracle); OBNAME/OBJREF are exercised through attributes '
               'of written files in C05/C07 (they need live objects); flood runs (~1 s each) only in the thorough tier')
-TIERS = {'quick': {'cases': 2500, 'wall': 40}, 'thorough': {'cases': 400000, 'wall': 780}}
+TIERS = {'quick': {'cases': 8000, 'wall': 40}, 'thorough': {'cases': 400000, 'wall': 780}}
 RULE = ('case = seeded sequence of 4-40 write_struct calls in one process (a prefix of colliding keys, then the probes); '
         'non-trivial = the probe value was preceded by an equal-but-distinct key or DTIME ran under a non-UTC zone; distinct = digest')
 FIXED = {'USHORT': (15, 0, 255), 'UNORM': (16, 0, 65535), 'ULONG': (17, 0, 2 ** 32 - 1), 'SSHORT': (12, -128, 127),
